@@ -18,14 +18,7 @@ class ColumnControlConstructionTokenTranslator(AbstractTranslator):
             # Mutates matrix, inplace literal cols with digital
             MatrixOfCellIdentifiersTokenTranslator.translate(token.matrix, excel, context)
 
-            if token.matrix.matrix[0].column == token.matrix.matrix[-1].column:
-                return str(token.matrix.matrix[0].column + 1)
-
-            for i in range(token.matrix.matrix[0].column + 1, token.matrix.matrix[-1].column + 2):
-                # The only way to set multiple cells while parsing single token
-                context.set_cell(token.in_cell, str(i))
-                token.in_cell.column += 1
-            token.in_cell.column = token.matrix.matrix[0].column + 1
-            return context.set_sub_cell(token.in_cell, str(token.in_cell.column))
+            # A cell holds one value: the number of the first column of the area. The cells beside the formula keep their own content.
+            return str(token.matrix.matrix[0].column + 1)
         else:
             return token.in_cell.column + 1
